@@ -58,5 +58,7 @@ def run(pid, tier, seed, ROOT, REPO, WORK):
             f.write('\nto replay: compile `fn s<T: Send>(){} fn y<T: Sync>(){}` with the assertion against the crate\n')
         unsound = [w for w in wrong if w[1].startswith('rustc accepts')]
         (ty, tr, e), why = (unsound or wrong)[0]
-        out['violations'].append((f'thread-safety marker: {why}: {tr}::<{ty}>()', path))
+        what = (f'rustc accepts `{ty}: {tr.capitalize()}` although the pointer it stores is not {tr.capitalize()} for this pointee (a wrapper may cross threads only if the stored pointer may)'
+                if why.startswith('rustc accepts') else f'rustc rejects `{ty}: {tr.capitalize()}` although the stored pointer is thread-safe and the wrapper is not the deliberately non-Send one')
+        out['violations'].append((f'thread-safety marker: {what}', path))
     return out
